@@ -32,13 +32,13 @@ OWNER_HINT = {
 }
 
 
-def split_errors(prop, errors):
+def split_errors(prop, errors, relevant=None):
     rel, other, tool = [], [], []
     for e in errors:
         cat = e[1:e.index("]")] if e.startswith("[") and "]" in e else "harness"
         if cat == "harness":
             tool.append(e)
-        elif cat in RELEVANT.get(prop, set()):
+        elif cat in (relevant if relevant is not None else RELEVANT.get(prop, set())):
             rel.append(e)
         else:
             other.append(e)
@@ -74,7 +74,7 @@ def sized_cfg(ops, nslots, nblocks, maxframes, hows, emit=True, view="CanonView"
         "CHECK_DEADLOCK FALSE", ""])
 
 
-def graph_replay(prop, tier, name, family, root, modules, cfg_text, nslots, harness_cfg="a", tlc_timeout=3000, simulate=None, scale=1):
+def graph_replay(prop, tier, name, family, root, modules, cfg_text, nslots, harness_cfg="a", tlc_timeout=3000, simulate=None, scale=1, cats=None):
     """TLC explores the handle-level specification exhaustively (invariants + action properties) and
     exports one concrete behaviour per transition; every behaviour is replayed into the real crate and
     the implementation's observable state compared with the specification's projection."""
@@ -108,7 +108,8 @@ def graph_replay(prop, tier, name, family, root, modules, cfg_text, nslots, harn
         if os.path.exists(p):
             os.remove(p)
     t0 = time.time()
-    cats = ",".join(sorted(RELEVANT.get(prop, {"*"}))) or "*"
+    relevant = set(cats) if cats else RELEVANT.get(prop)
+    cats = ",".join(sorted(relevant if relevant is not None else {"*"})) or "*"
     # scale: every slice slot of the specification stands for `scale` consecutive slots of the implementation
     r = subprocess.run([exe, "replay", family, out, str(nslots), prog, summ, "40", cats], cwd=wd,
                        env=dict(os.environ, TVH_LEN_SCALE=str(scale)),
@@ -131,7 +132,7 @@ def graph_replay(prop, tier, name, family, root, modules, cfg_text, nslots, harn
                     v = json.loads(l)
                 except ValueError:
                     continue
-                rel, other, tool = split_errors(prop, v["errors"])
+                rel, other, tool = split_errors(prop, v["errors"], relevant)
                 if rel:
                     res["violations"].append({"stage": name, "family": family, "nslots": nslots, "scale": scale, "h": v["h"], "x": v["x"], "errors": rel})
         beh = nth_behaviour(out, line_no)
@@ -147,13 +148,18 @@ def graph_replay(prop, tier, name, family, root, modules, cfg_text, nslots, harn
     res["last_op_histogram"] = s["last_op_histogram"]
     res["skipped_aborted"] = s.get("skipped_aborted", 0)
     for v in s["violations"]:
-        rel, other, tool = split_errors(prop, v["errors"])
+        rel, other, tool = split_errors(prop, v["errors"], relevant)
         if tool:
+            # once the implementation has left the specification's path, later behaviours with the same prefix can
+            # drive the interpreter into states it has no handle for: that is a consequence, not a tool failure
+            if res["violations"]:
+                continue
             raise ToolError("harness reported an internal error on %s: %s" % (name, tool[:3]))
         if rel:
             res["violations"].append({"stage": name, "family": family, "nslots": nslots, "scale": scale, "h": v["h"], "x": v["x"], "errors": rel,
                                       "other": other})
-        elif other:
+        elif other and relevant is RELEVANT.get(prop):
+            # (a stage with its own category list compares only what its payloads can report: no notes about the rest)
             hint = sorted({OWNER_HINT.get(e[1:e.index("]")], "?") for e in other})
             res["notes"].append("divergence outside %s (owned by %s): %s" % (prop, ",".join(hint), other[0]))
     # shortest counterexample first
